@@ -83,7 +83,10 @@ Section C09.
       assert (A : trace (advance_clocks e dt) = trace e /\ prev (advance_clocks e dt) = prev e)
         by (unfold advance_clocks; cbv zeta; destruct (bpaused e || negb (sys_eqb (sys e) Running)); split; reflexivity).
       destruct A as [A1 A2]. rewrite A1, A2, mon9_app, H. reflexivity.
-    - (* uod event *) apply R9_emit; [|exact H]. destruct x; try discriminate; reflexivity.
+    - (* init *) apply (R9_neutral (emit e (EUInit n (c_id c)))); [reflexivity|reflexivity|]. apply R9_emit; [reflexivity|exact H].
+    - (* exec *) apply R9_emit; [reflexivity|exact H].
+    - (* finalize *) unfold fin_u. apply (R9_neutral (emit e (EUFinal (c_name c) (c_id c)))); [reflexivity|reflexivity|].
+      apply R9_emit; [reflexivity|exact H].
     - now apply R9_write.
     - (* set_out_by *) unfold set_out_by. apply R9_emit; [reflexivity|]. apply (R9_neutral e); [reflexivity|reflexivity|exact H].
     - (* unpause *) unfold R9 in *. unfold unpause_body. cbv zeta.
